@@ -447,6 +447,23 @@ theorem rcache_hit_not_expired (maxBytes : Int) (ops : List COp) (now : Int) (k 
   obtain ⟨i, _⟩ := run_inv ops _ (new_inv maxBytes)
   exact removeExpired_fresh _ i now e (get_hit _ now k m q e h).2.2.2
 
+/-- **What a round trip can add** (any state, any answer of the wrapped transport and of the cache-control library):
+    every entry present afterwards was present before, or it is the answer to THIS request — a GET, declared cacheable
+    by the library, stored under exactly this URL string / method / raw query, and expiring no later than the
+    library's expiry and no later than `now + maxCacheTime`.  Hence a transport error, a non-GET request and a
+    non-cacheable answer add nothing (the cache is unchanged but for pruning). -/
+theorem rcache_round_trip_adds_only_this_cacheable_get (c : RCache) (now mc : Int) (k m q : Bytes) (i : Inner) :
+    ∀ x ∈ (c.roundTrip now mc k m q i).1.all, x ∈ c.all ∨
+      (m = sGET ∧ x.key = k ∧ x.method = m ∧ x.query = q ∧ x.exp ≤ now + mc ∧ ∃ size t, i = .resp size (some t) ∧ x.size = size ∧ x.exp ≤ t) :=
+  roundTrip_all c now mc k m q i
+
+/-- non-vacuity: max-age of 2 h is capped at 1 h (60000 units); a POST and a `no-store` answer leave the cache empty -/
+example :
+    ((RCache.new 100).roundTrip 5 60000 [97] sGET [] (.resp 8 (some 120005))).1.all.map (·.exp) = [60005] ∧
+    ((RCache.new 100).roundTrip 5 60000 [97] [80, 79, 83, 84] [] (.resp 8 (some 120005))).1.all = [] ∧
+    ((RCache.new 100).roundTrip 5 60000 [97] sGET [] (.resp 8 none)).1.all = [] ∧
+    ((RCache.new 100).roundTrip 5 60000 [97] sGET [] .fail).1.all = [] := by decide
+
 /-- non-vacuity: three inserts out of order (one already expired), a lookup at time 3: ordered list, the expired entry
     is gone from list AND index, the fresh one is a hit -/
 example :
